@@ -12,1059 +12,1206 @@ Definition show_fres (r : fres) : string :=
   end.
 Definition check (rs : list rune) : string := digest (show_fres (format_res rs)).
 Definition full (rs : list rune) : string := show_fres (format_res rs).
-Eval vm_compute in ("<<<M1364>>>" ++ check (runes_of_ascii "// top
-options // c0
-{ // c1a
-  // c1b
-StringPrefixLenType // c2a
-  // c2b
-= // c3a
-  // c3b
-u8 // c4
-; ArrayPrefixLenType // c6a
-  // c6b
-=
-    // c7
-u32 // c8a
-  // c8b
-; // c9
-FixedStringPadFromLeft = // c11a
-  // c11b
-true
-    // c12
-;
-    // c13
-FixedStringPadChar = // c15a
-  // c15b
-' ' // c16a
-  // c16b
-;
-    // c17
-} // c18a
-  // c18b
-packet
-    // c19
-Leg { } packet // c23
-Heartbeat
-    // c24
-{
-    // c25
-zchar[
-    // c26
-6 ] // c28
-msgKind // c29a
-  // c29b
-, @rightPad // c31
-( '0' // c33
-) // c34
-char[ 3 // c36a
-  // c36b
-] // c37
-Qty
-    // c38
-, zchar[ 9 // c41
-] // c42
-Side2 ,
-    // c44
-i8 // c45a
-  // c45b
-Acct // c46
+Eval vm_compute in ("<<<M277>>>" ++ check (runes_of_ascii "root packet
+// `tick` ""quote"" 'q'
+// trailing space 
+repeatCount
+    {
+    @tag( 65535
+) A
+{ u128
+, u8x{ repeatCount @lengthOf( // @lengthOf(
+As	) ,i32 _x @calculatedFrom(
+""" ++ [128512]%N ++ runes_of_ascii """ ) , }
 ,
-    // c47
-} // c48a
-  // c48b
-packet // c49a
-  // c49b
-Logout { // c51a
-  // c51b
-int8 // c52
-x ,
-    // c54
-} // c55
-packet Order { // c58a
-  // c58b
-char[]
-    // c59
-Acct , // c61
-zchar[ // c62
-8
-    // c63
-] count
-    // c65
-, u32 // c67a
-  // c67b
-OrderId // c68
-, uint8 // c70a
-  // c70b
-lastPx // c71
-, u16 // c73
-clOrdID // c74a
-  // c74b
-, zchar[ // c76a
-  // c76b
-7
-    // c77
-]
-    // c78
-Note ,
-    // c80
-} // c81
-root // c82a
-  // c82b
-packet // c83
-Reject { @leftPad ( // c87
-' ' ) char[ // c90
-8 // c91
-] Side2 , // c94a
-  // c94b
-i8 clOrdID
-    // c96
-,
-    // c97
-repeat f32 x
-    // c100
-,
-    // c101
-u32
-    // c102
-lastPx
-    // c103
-,
-    // c104
-match // c105a
-  // c105b
-lastPx
-    // c106
+    /// triple
+    } ,
+} options {//x
+u128 =
+7 ;
+    asx= 0123456789
+    //
+    } packet len
+    { int8 u128 @lengthOf(
+a1 ) ,
+@calculatedFrom( // @lengthOf(
+""" ++ [233]%N ++ runes_of_ascii "t" ++ [233]%N ++ runes_of_ascii """)@leftPad
+    // " ++ [128512]%N ++ runes_of_ascii " emoji
+    ( )@tag( 1 // packet A { u8 x, }
+) //
+msg_type  {
+    // " ++ [128512]%N ++ runes_of_ascii " emoji
+    match leftPad
 as
-    // c107
-Body
-    // c108
-{ // c109a
-  // c109b
-[ 30 , // c112
-147
-    // c113
-]
-    // c114
-:
-    // c115
-Heartbeat // c116
-, // c117
-134
-    // c118
-: Leg // c120a
-  // c120b
-,
-    // c121
-183
-    // c122
-: // c123
-Logout // c124
-, 40 :
-    // c127
-Order
-    // c128
-, // c129a
-  // c129b
-} // c130
-, // c131
-u16 Ref @calculatedFrom( // c134
-""CRC32""
-    // c135
-) ,
-    // c137
-} // c138
-")).
-Eval vm_compute in ("<<<M1755>>>" ++ check (runes_of_ascii "options {
-    BodyLength = 3;// " ++ [128512]%N ++ runes_of_ascii " emoji
-    T = ""packet"";
-    // c
+BodyLength { 1
+: Foo , [ 007 , 255 ] :zchar
+,0 : As ,[ 10 , 3
+    ,7 ,""abc""
+    , // packet A { u8 x, }
+42 ]: A, [ 65535] :calculatedFrom, } // c
+,},
+@lengthOf( falsey
+//
+// " ++ [27880; 37322]%N ++ runes_of_ascii "
+) repeat BodyLength { char[ 7
+    ] u128
+    @calculatedFrom(""x y"" ) ,
+    }
+,	@leftPad('\x00'
+) roots@calculatedFrom(  ""{,}"" ) ,
+    i8i8 @lengthOf( charz) ,
+char[ 7 ]Header ,  zchar[
+42 ] pack , repeat asx float `{ , }` , }
+    MetaData
+    // a // b
+    float{u64 len , uint32 MetaDataX`// not a comment` ,
+    uint64	Header , crc Logon ,}packet u8x
+    { Pad _x `u8 x,`,@calculatedFrom( ""packet"" ) repeat BodyLength
+metadata ,
+//
+/// triple
+@tag( 00 )repeat u8x { msg_type// `tick` ""quote"" 'q'
+o  `two words` ,uint8x@lengthOf( //
+_x
+    ),string_ {repeat string string_ ,repeat	string body `a\`,
     // trailing space 
-    crc = true;
-    falsey = '\x00';
+    repeat A `" ++ [28040; 24687; 31867; 22411]%N ++ runes_of_ascii "` , match u8x as u8x { ""// no comment""
+    :
+    options1, [ ""abc""
+, 10
+    ,	""// no comment"",
+""abc"", ""CRC32"" ,
+    ""CRC32""
+, ""a	b"", ""packet""
+] :
+// " ++ [128512]%N ++ runes_of_ascii " emoji
+// a // b
+i64_ , ["""" ,
+""1"" ] :
+float ,""1"" :
+    crc , 0 //
+: Foo ,""x y""
+    // c
+    :A  , // a // b
+} ,
+    }	, } , char[ 0]
+len
+    ,body @calculatedFrom( """ ++ [233]%N ++ runes_of_ascii "t" ++ [233]%N ++ runes_of_ascii """ )`{ , }` , @tag(
+    0 )i32 a1 `line1
+line2`, @tag( 4294967296
+// 50% %s
+/// triple
+)@tag( 7  )
+body ,
+}")).
+Eval vm_compute in ("<<<M136>>>" ++ check (runes_of_ascii "//	t
+packet MetaDataX  {
+@leftPad ( ) repeat
+float64 asx, }MetaData
+Foo { // a // b
+char[65535 ]
+    Pad ,} packet
+    body// 50% %s
+{
+match
+asx as charz
+{// `tick` ""quote"" 'q'
+10 : u8x ,	""it's"" : leftPad ,3 :
+metadata
+// trailing space 
+//x
+,
+    ""it's""
+:
+x,
+    [ 65535,""" ++ [233]%N ++ runes_of_ascii "t" ++ [233]%N ++ runes_of_ascii """ ] :u128
+    ,
+10:// @lengthOf(
+len } ,
+repeat f32 rootA `` , // 50% %s
+@leftPad (
+    //
+    ' ' ) repeat i64
+    BodyLength // c
+,repeatCount {i16 crc @lengthOf( u128 ) ,} , u16// " ++ [27880; 37322]%N ++ runes_of_ascii "
+u @lengthOf(f32a)`// not a comment` ,// trailing space 
+len
+    { match Logon as // @lengthOf(
+Foo { """ ++ [233]%N ++ runes_of_ascii "t" ++ [233]%N ++ runes_of_ascii """
+:stringy,10
+: msg_type ,//	t
+[""\n""
+    , ""`tick`""
+, ""abc""	,
+""""
+    ,	007	,  1
+    , ""a\""b""  ] :
+i64_ // packet A { u8 x, }
+, 255
+    //x
+    : T ,""{,}"": f32a }  , string
+    tag
+@lengthOf( Z9_ ) ,
+    // a // b
+    u32 charz `crlf
+line`
+, u8x
+@lengthOf(/// triple
+rootA  )  ,
+} , float	, int8  repeatCount @lengthOf(f32a )
+    `crlf
+line` , zchar[
+    // packet A { u8 x, }
+    7 // a // b
+] BodyLength
+    @lengthOf( string_// a // b
+)
+    ,} packet u128 {	x`// not a comment`  , }//
+packet
+x { A  `doc`
+, Packet@calculatedFrom(// `tick` ""quote"" 'q'
+""\" ++ [233]%N ++ runes_of_ascii """)	`say ""hi""` ,
+repeat string asx
+,
+@lengthOf(	MetaDataX ) repeat char[ 4294967296 //
+]
+    string_`u8 x,` ,
+    @lengthOf( charz
+) char[ 0123456789	] f32a  `say ""hi""`
+,
+}
+")).
+Eval vm_compute in ("<<<M1925>>>" ++ check (runes_of_ascii "
+options{
+	}
+root 
+packet
+    tag	{
+	@calculatedFrom(
+
+    // @lengthOf(
+    ""packet"") u128 @lengthOf(
+zchar 
+)
+
+    , }  packet
+    _x
+	{ 
+@calculatedFrom(
+    ""a\\"")	//
+	@rightPad(
+
+    ' ' )
+	As
+, zchar // c
+	@calculatedFrom(
+
+    """ ++ [233]%N ++ runes_of_ascii "t" ++ [233]%N ++ runes_of_ascii """ )
+`tab	here` // trailing space 
+	, 
+@tag( 007
+	)
+
+    @lengthOf(  //	t
+    zchar  )	// packet A { u8 x, }
+    string
+crc 
+,
+
+string u128
+	// c
+    @calculatedFrom(
+
+    ""packet""
+//
+// `tick` ""quote"" 'q'
+  ) // c
+
+,
+	repeat
+uint64
+asx,	@lengthOf( 
+zchar
+) lengthOf
+	{
+string 
+trueish `// not a comment`
+    ,}
+, 
+
+// trailing space 
+		// `tick` ""quote"" 'q'
+  @tag(
+0)
+u128 
+{
+repeat
+f64  /// triple
+    crc
+
+`` ,  char[ 3
+
+    ]  Foo`crlf
+line` 
+,
+repeat
+
+//x
+
+// @lengthOf(
+float	uint8x  ,char[  10
+]	msg_type
+    `u8 x,`
+    , } // packet A { u8 x, }
+	,
+
+    uint64
+
+string_ ,
+
+packetx 
+matchKey ,// 50% %s
+  @leftPad	(  ' '
+
+) repeat
+zchar[ 	 // @lengthOf(
+
+255] Z9_ , 
+}
+    MetaData
+    crc
+
+    {  calculatedFrom
+body
+`// not a comment` ,  i64_ i8i8,
+	o
+
+options1	`u8 x,` 
+,
+
+char[
+    10
+	] pack
+,
+	}
+    // a // b
+")).
+Eval vm_compute in ("<<<M1477>>>" ++ check (runes_of_ascii "
+options {
+
+LittleEndian=true
+
+    ;
+StringPrefixLenType = u8
+	;
+    ArrayPrefixLenType
+=
+    u8 
+;
+
+FixedStringPadFromLeft=true;
+
+    FixedStringPadChar	= '0'; } packet Logon	{	repeat 
+i8 Ref
+    ,	@rightPad
+	( 
+'0')
+
+    char[
+
+8 
+]msgKind , 
+repeat InOrderid72
+    { u8 Side2
+	, uint32
+Qty
+, repeat
+InPrice27
+{
+	repeat
+char[ 
+4
+]
+Acct , u64  sym  ,
+
+} ,
+
+    zchar[
+    4 ]
+	clOrdID,
+int16
+
+    lastPx,
+
+InAcct22 {repeat
+char[
+    3
+	]
+
+OrderId ,	}
+
+,
+
+    },  int64 Px	, }
+
+packet
+	Fill
+{ uint16
+
+Qty,
+
+repeat
+char[ 1
+] 
+Flags
+
+    ,
+	i8 Ref,}	packet
+
+Logout
+	{ @leftPad
+(
+
+'0' )
+    char[
+
+3
+
+    ]
+
+x
+,  int8
+	f1 
+,  Logon
+    ,
+
+uint16	venue ,
+
+    zchar[ 2]Px ,
+}	packet
+	Reject {	}
+    root packet
+Leg
+	{
+
+    Fill  ,	u16 msgKind,	match 
+msgKind	as	Body
+
+{
+[
+
+182
+
+,83	]
+: 
+Fill  , 199	:  Reject
+,  137 : 
+Logout
+,
+
+35
+:
+    Logon ,
+
+    }
+	,u32
+    lastPx
+
+@calculatedFrom(""CR\
+C32""
+)  ,
+	}
+")).
+Eval vm_compute in ("<<<M1728>>>" ++ check (runes_of_ascii "packet i8i8 {
+    // trailing space 
+    // " ++ [27880; 37322]%N ++ runes_of_ascii "
+    MetaDataX @lengthOf(chars) `" ++ [233]%N ++ runes_of_ascii "`,// 50% %s
+    char[] u128 @lengthOf(u8x),
+    @lengthOf(T)
+    float64 repeatCount,
+    @tag(00)
+    MetaDataX,
+    // a // b
+    // trailing space 
+    uint64 chars `tab	here`,
+    string_ @lengthOf(As) ``,
+    zchar[00] asx @lengthOf(metadata) `line1
+    line2`,
+    @lengthOf(charz)
+    charz f32a `" ++ [28040; 24687; 31867; 22411]%N ++ runes_of_ascii "`,
+    @rightPad('\x00')
+    repeat BodyLength tag,
 }
 
-root packet A {
-    @leftPad('0')
-    char[65535] Header `" ++ [233]%N ++ runes_of_ascii "`,
-    @rightPad('0')
+packet repeatCount {
+    crc stringy,
+}
+
+options {
+    zchar = char[];
+    options1 = false
+    repeatCount = ""a	b""
+    body = ""`tick`""
+}
+
+// a // b
+//x
+MetaData MetaDataX {
+    Pad repeatCount `u8 x,`,
+    char[42] f32a ``,
+    _x Z9_,
+}
+
+packet Logon {
+    @tag(007)
+    o {
+        char Packet @lengthOf(repeatCount),
+    },
+}// a // b")).
+Eval vm_compute in ("<<<M1155>>>" ++ check (runes_of_ascii "options { uint8x
+    // c2
+= // c3
+007 // c4
+;
+    // c5
+lengthOf // c6
+= // c7
+i8 ;
+    // c9
+}
+    // c10
+packet i64_ // c12
+{ // c13
+@calculatedFrom( // c14a
+  // c14b
+""1"" // c15a
+  // c15b
+) // c16
+@tag( // c17
+3 // c18a
+  // c18b
+)
+    // c19
+@lengthOf( // c20a
+  // c20b
+rootA
+    // c21
+) // c22a
+  // c22b
+repeat int8 Packet // c25
+`tab	here` // c26
+, // c27a
+  // c27b
+} // c28
+packet // c29
+_x { // c31a
+  // c31b
+matchKey // c32
+x // c33a
+  // c33b
+`" ++ [28040; 24687; 31867; 22411]%N ++ runes_of_ascii "`
+    // c34
+, // c35
+int32
+    // c36
+calculatedFrom
+    // c37
+`100% of %d` ,
+    // c39
+@lengthOf( // c40a
+  // c40b
+trueish // c41a
+  // c41b
+) // c42
+Packet , repeat f32 o
+    // c47
+, // c48
+}
+    // c49
+")).
+Eval vm_compute in ("<<<M1946>>>" ++ check (runes_of_ascii "
+
+  options{charz
+= false
+	;
+Z9_
+
+    =  ""\" ++ [233]%N ++ runes_of_ascii """
+
+    ;// c
+}
+options  {falsey=char[];
+
+    }packet metadata
+
+{
+
+    @tag( 4294967296
+)  match 
+int as float { [0
+
+,
+
+    0123456789
+    ,	42
+,
+    7 ,
+
+""a\""b""
+
+, 7 
+]
+
+: zchar
+
+    , ""1"":  options1 
+
     //
-    a1 @lengthOf(msg_type),
-    @lengthOf(rootA)
-    match _x as stringy {
-        ""CRC32"" : chars,
-        3 : float,
-        255 : asx,
-        10 : tag,
-        //
+    // " ++ [128512]%N ++ runes_of_ascii " emoji
+      ,
+},
+
+    @tag(
+	10 ) match 
+msg_type
+as	Foo
+
+{  ""a	b"":rootA, 
+65535	:	roots /// triple
+	,
+00: 	 // `tick` ""quote"" 'q'
+    trueish
+,
+
+    ""\" ++ [233]%N ++ runes_of_ascii """
+:
+    MetaDataX	, 
+	    //x
+  // 50% %s
+    	00
+    :
+	Logon ,
+	}
+,repeat
+
+    len
+
+packetx
+, @lengthOf(
+    Foo) 
+len
+	`two words`	,
+    roots ,
+}  //x
+")).
+Eval vm_compute in ("<<<M1410>>>" ++ check (runes_of_ascii "packet charz {
+    repeat i64_,
+    trueish {
+        repeat _x,
+        repeatCount,
+        repeat u16 matchKey `
+        `,
+        trueish @lengthOf(Z9_),
     },
-    @calculatedFrom(""" ++ [128512]%N ++ runes_of_ascii """)
-    u32 u8x `crlf
-        line`,
-    repeat char[] asx `a\`,
-    @rightPad('0')
-    match f32a as Packet {
-        [
-            255, ""CRC32"", 007, ""1"", ""packet"",
-            00, 4294967296
-        ] : calculatedFrom,
-        ""packet"" : falsey,
-        ""a\""b"" : body,
-        7 : Packet,
-        // " ++ [128512]%N ++ runes_of_ascii " emoji
-        0123456789 : i64_,
-        // a // b
-        [4294967296, 0123456789] : options1,
+    zchar[3] body,
+    @rightPad(' ')
+    body packetx `{ , }`,// packet A { u8 x, }
+    repeat matchKey {
+        uint8 metadata ``,
+        trueish @calculatedFrom(""abc""),
     },
-    crc @lengthOf(Foo),
-    @calculatedFrom(""{,}"")
-    @lengthOf(metadata)
-    @lengthOf(i8i8)
-    int64 options1 @calculatedFrom(""CRC32"") `line1
-        line2`,// @lengthOf(
+    @lengthOf(packetx)
+    int32 uint8x `tab	here`,
+    @rightPad()
+    @rightPad()
+    f32a,
+    tag _x `a\`,
 }
 
 packet a1 {
-    match lengthOf as x_y_z {
-        ""it's"" : matchKey,
-        10 : Packet,
-        [""abc""] : A,
-        10 : metadata,
+    @tag(4294967296)
+    repeat f32 a1 `line1
+    line2`,
+}")).
+Eval vm_compute in ("<<<M1958>>>" ++ check (runes_of_ascii "packet BodyLength {
+}
+
+packet tag {
+    repeat Logon {
+        u @calculatedFrom(""// no comment"") `crlf
+                line`,
+        char u8x,
+        uint32 uint8x,
     },
 }
 
-MetaData body {
-    char string_,
-    char[] x,
-    len Pad,
-    string leftPad,
-}// trailing space ")).
-Eval vm_compute in ("<<<M174>>>" ++ check (runes_of_ascii "
-root packet asx { leftPad
-    {u128 @calculatedFrom( ""1""
-) , //x
-}
-, lengthOf // packet A { u8 x, }
-@calculatedFrom( """ ++ [128512]%N ++ runes_of_ascii """ ) `a\`
-, i64 // `tick` ""quote"" 'q'
-Packet @lengthOf(  calculatedFrom ) , @calculatedFrom(
-""" ++ [233]%N ++ runes_of_ascii "t" ++ [233]%N ++ runes_of_ascii """ ) stringy	a1 `doc` // `tick` ""quote"" 'q'
-, @rightPad
-    (
-    // a // b
-    )
-    // c
-    a1
-    `a\`
-,  char
-Header @lengthOf(
-    x )`say ""hi""`, uint8x
-Z9_ `tab	here` ,  }
-options
-    {
-    calculatedFrom// packet A { u8 x, }
-= 0}	packet metadata {@leftPad ( '\x00'	) f32
-    pack
-//	t
-//
-, @tag( 65535 ) u32 uint8x @lengthOf( repeatCount) ``,MetaDataX	{ repeat options1 , match
-matchKey as len { """ ++ [128512]%N ++ runes_of_ascii """:
-    u8x	, 1 :
-zchar
-, /// triple
-[ ""a\\""
-    ,
-    ""x y"" ] : charz 0
-    :
-    x_y_z
-    //
-    ,[// trailing space 
-4294967296// `tick` ""quote"" 'q'
-]: asx  , [/// triple
-""a\""b"" , ""\n"" , ""\" ++ [233]%N ++ runes_of_ascii """ ,10 ] : _x ,
-    }	, uint8  metadata
-@lengthOf(float
-) ,
-zchar[
-    255] i8i8 , },
-    }root  packet
-f32a
-    { }")).
-Eval vm_compute in ("<<<M1962>>>" ++ check (runes_of_ascii "root packet asx {
-    leftPad {
-        u128 @calculatedFrom(""1""),//x
-    },
-    lengthOf @calculatedFrom(""" ++ [128512]%N ++ runes_of_ascii """) `a\`,
-    i64 Packet @lengthOf(calculatedFrom),
-    @calculatedFrom(""" ++ [233]%N ++ runes_of_ascii "t" ++ [233]%N ++ runes_of_ascii """)
-    stringy a1 `doc`,
-    @rightPad()
-    // c
-    a1 `a\`,
-    char Header @lengthOf(x) `say ""hi""`,
-    uint8x Z9_ `tab	here`,
-}
-
-options {
-    calculatedFrom = 0
-}
-
-packet metadata {
-    @leftPad('\x00')
-    f32 pack,
-    @tag(65535)
-    u32 uint8x @lengthOf(repeatCount) ``,
-    MetaDataX {
-        repeat options1,
-        match matchKey as len {
-            """ ++ [128512]%N ++ runes_of_ascii """ : u8x,
-            1 : zchar,
-            /// triple
-            [""a\\"", ""x y""] : charz,
-            0 : x_y_z,
-            [4294967296] : asx,
-            [""a\""b"", ""\n"", ""\" ++ [233]%N ++ runes_of_ascii """, 10] : _x,
+packet T {
+    float32 Z9_,
+    @lengthOf(pack)
+    @calculatedFrom(""`tick`"")
+    @lengthOf(u8x)
+    u {
+        // `tick` ""quote"" 'q'
+        match repeatCount as u {
+            ""// no comment"" : packetx,
+            //	t
+            1 : falsey,
         },
-        uint8 metadata @lengthOf(float),
-        zchar[255] i8i8,
+        Z9_ @calculatedFrom("""") `doc`,
     },
-}
-
-root packet f32a {
-}")).
-Eval vm_compute in ("<<<M230>>>" ++ check (runes_of_ascii "packet rootA{	match
-zchar as
-    // " ++ [128512]%N ++ runes_of_ascii " emoji
-    int {
-    [ ""it's""
-, ""1""]
-    :// c
-tag ,
-    } , char Packet @lengthOf( body ) , metadata @lengthOf( packetx ) ,@calculatedFrom( """ ++ [128512]%N ++ runes_of_ascii """	)match
-    repeatCount as f32a { """ ++ [28040; 24687]%N ++ runes_of_ascii """
-    :chars ,
+}/// triple")).
+Eval vm_compute in ("<<<M135>>>" ++ check (runes_of_ascii "packet	repeatCount {
+@tag(
+7 )
+    match
+T as
+    i64_ {
+""" ++ [233]%N ++ runes_of_ascii "t" ++ [233]%N ++ runes_of_ascii """:/// triple
+body,
     }
-    ,@lengthOf(string_ )char[ 0
-    //
-    ] len @calculatedFrom(
-""abc"" )
-,
-    // `tick` ""quote"" 'q'
-    u8 uint8x@lengthOf( roots)  `say ""hi""`
-, int @calculatedFrom( ""a\""b"") ,match
-msg_type as i8i8 {// c
-""\" ++ [233]%N ++ runes_of_ascii """
-// " ++ [27880; 37322]%N ++ runes_of_ascii "
-// packet A { u8 x, }
-: Header , 1 : zchar,
-    [ ""\n""	]
-:	string_
-""\n"" :i8i8 0123456789 : Logon
-    [ 00 , 007 ,""1"" ,
-    //	t
-    ""it's""
-    , ""// no comment""
-    ,
-    0
-, ""a\\"" ,// packet A { u8 x, }
-007 ]
-    :BodyLength}
-, match rootA as // c
-chars  {
-7
-:
+,@lengthOf( crc ) float64 body  `u8 x,` , repeat // a // b
+rootA //	t
+{  int16 x_y_z`two words` // " ++ [27880; 37322]%N ++ runes_of_ascii "
+, zchar[  4294967296
     // @lengthOf(
-    Header }
-, A Foo `tab	here` ,
-}
-")).
-Eval vm_compute in ("<<<M1366>>>" ++ check (runes_of_ascii "options {
-    StringPrefixLenType = u8;
-    ArrayPrefixLenType = u32;
-    FixedStringPadFromLeft = true;
-    FixedStringPadChar = ' ';
-}
-packet Leg {
-}
-packet Heartbeat {
-    zchar[6] msgKind,
-    @rightPad('0') char[3] Qty,
-    zchar[9] Side2,
-    i8 Acct,
-}
-packet Logout {
-    int8 x,
-}
-packet Order {
-    char[] Acct,
-    zchar[8] count,
-    u32 OrderId,
-    uint8 lastPx,
-    u16 clOrdID,
-    zchar[7] Note,
-}
-root packet Reject {
-    @leftPad(' ') char[8] Side2,
-    i8 clOrdID,
-    repeat f32 x,
-    u32 lastPx,
-    match lastPx as Body {
-        [30, 147] : Heartbeat,
-        134 : Leg,
-        183 : Logout,
-        40 : Order,
-    },
-    u16 Ref @calculatedFrom(""CR\
-C32""),
-}
-")).
-Eval vm_compute in ("<<<M1600>>>" ++ check (runes_of_ascii "root packet matchKey {
-    match Foo as Z9_ {
-        // c
-        [""x y"", ""1"", 007, 7] : pack,
-        ""`tick`"" : u128,
-        ""a	b"" : msg_type,
-        [00, 65535] : a1,
-        ""it's"" : Foo,
-        // " ++ [128512]%N ++ runes_of_ascii " emoji
-        [""""] : u,
-    },
-}
-
-packet calculatedFrom {
-    msg_type {
-        T @calculatedFrom(""\n""),
-        float64 i8i8,
-        As `
-                `,
-        u32 rootA @lengthOf(float),
-    },
-}
-
-packet x_y_z {
-    @tag(0)
-    i64_ @lengthOf(MetaDataX),
-}
-
-packet A {
-    @calculatedFrom(""a\\"")
-    @calculatedFrom(""abc"")
-    _x u `say ""hi""`,
-}
-
-options {
-    // trailing space 
-    metadata = ""a\\"";// a // b
-}")).
-Eval vm_compute in ("<<<M1116>>>" ++ check (runes_of_ascii "// top
-MetaData // c0
-Packet // c1
-{ // c2
-} // c3
-packet // c4
-charz // c5
-{ // c6
-Foo // c7
-asx // c8
-`it's` // c9
-, // c10
-@lengthOf( // c11
-T // c12
-) // c13
-@calculatedFrom( // c14
-"""" // c15
-) // c16
-@calculatedFrom( // c17
-""x y"" // c18
-) // c19
-zchar[ // c20
-007 // c21
-] // c22
-repeatCount // c23
-@lengthOf( // c24
-int // c25
-) // c26
-`a\` // c27
-, // c28
-i8 // c29
-string_ // c30
-, // c31
-repeat // c32
-options1 // c33
-Pad // c34
-, // c35
-} // c36
-root // c37
-packet // c38
-Packet // c39
-{ // c40
-int8 // c41
-float // c42
-`doc` // c43
-, // c44
-} // c45
-")).
-Eval vm_compute in ("<<<M1349>>>" ++ check (runes_of_ascii "options {
-    ArrayPrefixLenType = u64;
-    FixedStringPadFromLeft = true;
-    FixedStringPadChar = '0';
-}
-packet Quote {
-}
-packet Ack {
-    repeat InNote66 {
-        u8 pad0,
-    },
-}
-packet Reject {
-}
-root packet Order {
-    Quote,
-    repeat Reject,
-    string venue,
-    string seqNo,
-    uint32 Ref,
-    u16 lastPx,
-    u32 clOrdID @lengthOf(Body),
-    match lastPx as Body {
-        190 : Reject,
-        186 : Quote,
-        22 : Ack,
-    },
-    u16 Flags @calculatedFrom(""CRC32""),
-}
-")).
-Eval vm_compute in ("<<<M48>>>" ++ check (runes_of_ascii "root	packet Logon { @calculatedFrom( """" ) @lengthOf( int ) @tag( 3
-) match _x
-as // a // b
-i64_ { 10:asx
-// `tick` ""quote"" 'q'
-/// triple
-""" ++ [128512]%N ++ runes_of_ascii """ : crc ,[ 0
-,
-007
-] : float  ,// trailing space 
-}
-    , repeat //	t
-uint16
-leftPad  ,
-    }
+    ] trueish`two words` ,Pad@lengthOf(	Pad )  `// not a comment` ,  } ,
+tag string_
+    , @lengthOf( len )
+    // packet A { u8 x, }
+    @tag(255 ) @lengthOf(
     // " ++ [27880; 37322]%N ++ runes_of_ascii "
-    packet charz
-{  } MetaData
-int {
+    Logon
+)int
+, Foo @lengthOf( leftPad )`
+` , }
+")).
+Eval vm_compute in ("<<<M297>>>" ++ check (runes_of_ascii "packet uint8x{ @calculatedFrom(""" ++ [233]%N ++ runes_of_ascii "t" ++ [233]%N ++ runes_of_ascii """)int16 x_y_z
+// trailing space 
+//x
+,repeatCount , Logon  { repeat // c
+i8 Packet //
+`// not a comment`
+, } , @rightPad (  '0'// trailing space 
+)string msg_type
+, @calculatedFrom( ""`tick`"")
+repeat
+Z9_// " ++ [128512]%N ++ runes_of_ascii " emoji
+repeatCount
 //
 // trailing space 
-zchar[ 4294967296 ]matchKey
-,
-asx rootA
-    `doc`
-, Foo string_ `// not a comment`
-,
-    char[]u8x , // `tick` ""quote"" 'q'
-roots
-float , }
+, o `doc`
+, i64_ Pad , match
+repeatCount as
+roots {[
+// packet A { u8 x, }
+// " ++ [27880; 37322]%N ++ runes_of_ascii "
+42,007 ] :
+    // packet A { u8 x, }
+    i8i8 ,
+}, }
 ")).
-Eval vm_compute in ("<<<M256>>>" ++ check (runes_of_ascii "
-options // " ++ [27880; 37322]%N ++ runes_of_ascii "
-{ T = zchar[ 42
-] options1 = uint8 ;
-lengthOf
-=
-    // a // b
-    char[4294967296
-    ]
-    ; } packet Z9_ { repeat
+Eval vm_compute in ("<<<M300>>>" ++ check (runes_of_ascii "// c
+packet A// trailing space 
+{ i64_`100% of %d` // `tick` ""quote"" 'q'
+,@calculatedFrom( ""packet"") string
+Z9_ `{ , }` ,match BodyLength as
+    matchKey {
+7:MetaDataX ,
+} ,repeat	a1 { repeat Pad , }
+, pack  T, u64
 MetaDataX
-`crlf
-line`
-    ,
-repeat string x_y_z	,
-    u32 x
-, // `tick` ""quote"" 'q'
-@tag(
-// " ++ [128512]%N ++ runes_of_ascii " emoji
-// " ++ [128512]%N ++ runes_of_ascii " emoji
-00 )repeat i64 Logon ,
-u8x
-f32a, repeat
-    lengthOf``, repeat
-stringy Pad
-    // @lengthOf(
-    `
-`,
-    repeat
-    string_ chars `// not a comment` , }
-
-")).
-Eval vm_compute in ("<<<M1692>>>" ++ check (runes_of_ascii "packet T {
-    @tag(00)
-    repeat char[] charz `
-        `,
-    char[0123456789] BodyLength @lengthOf(Z9_) `u8 x,`,
-}
-
-MetaData crc {
-    float64 int `" ++ [28040; 24687; 31867; 22411]%N ++ runes_of_ascii "`,
-    As Logon ``,// `tick` ""quote"" 'q'
-    uint8 u,
-    u32 stringy `
-        `,
-    // a // b
-    //	t
-    uint64 uint8x,
-    asx calculatedFrom,//x
-}
-
-MetaData chars {
-    char[1] chars,
-}// trailing space ")).
-Eval vm_compute in ("<<<M1390>>>" ++ check (runes_of_ascii "options
-
-    { LittleEndian=
-
-    true
-    ;}packet
-Logon {
-    u8 
-x,
-}
-packet Logout
-
-    {u16
-reason
-,
-	}
-root packet Frame {
-
-    u64
-
-Kind
-
-,
-u64  Kind2
-
-    ,
-
-match Kind 
-as
-
-    Body
-{ 1
-:  Logon
-    , 
-[
-2 ,	3
-	,
-4
-
-]	: Logout
-,
-    100 : Logon
-	,
-}
-    ,	match  Kind2	as Trailer{ 
-0 :  Logout	,
-	} ,
-	}
-
-")).
-Eval vm_compute in ("<<<M1388>>>" ++ check (runes_of_ascii "options {
-    LittleEndian = true;
-}
-packet Logon {
-    u8 x,
-}
-packet Logout {
-    u16 reason,
-}
-root packet Frame {
-    u64 Kind,
-    u64 Kind2,
-    match Kind as Body {
-        1 : Logon,
-        [2, 3, 4] : Logout,
-        100 : Logon,
-    },
-    match Kind2 as Trailer {
-        0 : Logout,
-    },
-}
-")).
-Eval vm_compute in ("<<<M94>>>" ++ check (runes_of_ascii "MetaData chars{ uint64	A, msg_type asx
-    // c
-    , Z9_  a1,
-    stringy
-    i64_ //
-`doc` , }packet
-/// triple
-// a // b
-x_y_z {	} options {
-float // c
-=float32 rootA= false ;
-repeatCount// c
-=  char[ 10 ]
-; }	packet Z9_{zchar[007 ]
-    //	t
-    charz // c
-,
-} //x")).
-Eval vm_compute in ("<<<M1306>>>" ++ check (runes_of_ascii "// top
-packet // c0a
-  // c0b
-orderItem // c1a
-  // c1b
-{ u8 // c3
-a // c4
-, // c5a
-  // c5b
-}
-    // c6
-root packet // c8a
-  // c8b
-newOrder // c9a
-  // c9b
-{ orderItem // c11
-, u8
-    // c13
-x // c14a
-  // c14b
-,
-    // c15
-} // c16
-")).
-Eval vm_compute in ("<<<M1496>>>" ++ check (runes_of_ascii "
+    ,	@calculatedFrom(	""a	b"" ) tag
+{ u32 body  ,
+pack @lengthOf( _x
+) `it's` , repeatCount ,// c
+repeat int32 BodyLength ,} , uint64 tag , } options{ //x
+} 	 ")).
+Eval vm_compute in ("<<<M1270>>>" ++ check (runes_of_ascii "// top
 packet
+    // c0
+B // c1a
+  // c1b
+{ u8 // c3a
+  // c3b
+a // c4a
+  // c4b
+,
+    // c5
+} // c6a
+  // c6b
+root packet
+    // c8
+P
+    // c9
+{ u8 K // c12
+, // c13
+u8
+    // c14
+L
+    // c15
+@lengthOf( Body ) , match // c20a
+  // c20b
+K // c21a
+  // c21b
+as
+    // c22
+Body // c23
+{ 1 // c25
+: // c26a
+  // c26b
+B , // c28a
+  // c28b
+}
+    // c29
+, } ")).
+Eval vm_compute in ("<<<M198>>>" ++ check (runes_of_ascii "options {
+    rootA=i16
+    ;} MetaData len{ float64 pack `crlf
+line`
+,a1
+roots//	t
+, int16
+Header ,zchar[ 65535 ]charz , Packet//
+body `say ""hi""`
+, // `tick` ""quote"" 'q'
+repeatCount x `line1
+line2` ,
+    // packet A { u8 x, }
+    }options{ a1 =
+""`tick`"" ;	float	=	""" ++ [233]%N ++ runes_of_ascii "t" ++ [233]%N ++ runes_of_ascii """ ; Logon = zchar[
+00	]
+; Header= '0' ; }")).
+Eval vm_compute in ("<<<M1862>>>" ++ check (runes_of_ascii "
+MetaData
+    i64_  {
+int16
 u128
-    {
-    @calculatedFrom(""a	b""  ) // packet A { u8 x, }
-@leftPad
-
-( ' '
-
-)  //	t
-  @lengthOf(
-
-Header 	 // packet A { u8 x, }
-)char[  10
-
-] crc  @lengthOf(len
-	) , } MetaData
-
-    i8i8
-{
-	}
-")).
-Eval vm_compute in ("<<<M1843>>>" ++ check (runes_of_ascii "
-
-  packet	A{
-
-    match k as
-
-    n  {
-[ ""a"" ,
-
-    22  , 
-""c c"",4 ,
-
-""e""
-,  66
-
-    , 
-""g"" 
 ,
-
-8	,""i"" ,
-
-    10
-
-    ,""k""
-
-    ,
-
-    12 ]
-	:	B ,  2 
-: C 
-} , } ")).
-Eval vm_compute in ("<<<M152>>>" ++ check (runes_of_ascii "packet T {
-int u ,
-@calculatedFrom( ""\" ++ [233]%N ++ runes_of_ascii """ ) // `tick` ""quote"" 'q'
-repeat// @lengthOf(
-string	x_y_z// a // b
-,
-uint32// `tick` ""quote"" 'q'
-int `crlf
-line` , }
-")).
-Eval vm_compute in ("<<<M521>>>" ++ check (runes_of_ascii "packet uint8x
-{ match pack
-    as msg_type	{
-    0123456789 :	float
 }
+	MetaData
+	packetx
+	{char[]T,uint16
+    a1  `a\` 
 ,
-} packet //	t
-a1
-    { } options {packetx
-    = '\x00'	; u128= ""a	b"" ""a	b""  ; }
-")).
-Eval vm_compute in ("<<<M446>>>" ++ check (runes_of_ascii "packet uint8x
-{ match pack
-    as msg_type	{
-    0123456789 :	float
-} }
-,
-} packet //	t
-a1
-    { } options {packetx
-    = '\x00'	; u128= ""a	b""  ; }
-")).
-Eval vm_compute in ("<<<M1557>>>" ++ check (runes_of_ascii "
-
-  packet
-    // " ++ [27880; 37322]%N ++ runes_of_ascii "
-  Logon{
-repeatCount@lengthOf(
-    roots	) , @tag(
-	0	)
-	repeat
 zchar[
-    007	]
+007 ]
 
-    crc ,rootA 
-a1
-	`{ , }`
-, 
-string_`" ++ [233]%N ++ runes_of_ascii "`
-	,
-}")).
-Eval vm_compute in ("<<<M527>>>" ++ check (runes_of_ascii "packet uint8x
-{ match pack
-    as msg_type	{
-    0123456789 :	float
-}
+uint8x,
+	}
+    root
+packet	//	t
+		A  {
+
+    @leftPad
+    (
+
+    ' '
+)
+
+@tag( 255	// " ++ [27880; 37322]%N ++ runes_of_ascii "
+
+	)  @leftPad
+
+    ('\x00'
+
+) 
+repeat
+leftPad
+i64_
+	// `tick` ""quote"" 'q'
+
+  ,
+	}")).
+Eval vm_compute in ("<<<M1752>>>" ++ check (runes_of_ascii "packet 
+asx{ 
+@calculatedFrom(
+
+"""" )
+
+    @tag(	255
+
+    )  repeat  
+  // packet A { u8 x, }
+      // trailing space 
+int16	u8x
+
 ,
-} packet //	t
-a1
-    { } options {packetx
-    = '\x00'	; u128= ""a	b""  } ;
+@tag( 
+    //
+      007	)
+	@tag( 0 
+/// triple
+
+  ) 
+@tag( 1
+    )u
+
+@lengthOf( 
+T
+
+    )
+,
+// `tick` ""quote"" 'q'
+	//x
+}
 ")).
-Eval vm_compute in ("<<<M1810>>>" ++ check (runes_of_ascii "packet roots {
-    // " ++ [27880; 37322]%N ++ runes_of_ascii "
-    @tag(0)
-    repeat zchar[0] x,
+Eval vm_compute in ("<<<M419>>>" ++ check (runes_of_ascii "packet
+    asx { @calculatedFrom(
+""""  ) @lengthOf( 255 )repeat
+// packet A { u8 x, }
+// trailing space 
+int16 u8x
+,
+@tag(
+    //
+    007 )
+    @tag( 0
+    /// triple
+    ) @tag( 1) u
+    @lengthOf( T ),
+// `tick` ""quote"" 'q'
+//x
+} // " ++ [128512]%N ++ runes_of_ascii " emoji")).
+Eval vm_compute in ("<<<M534>>>" ++ check (runes_of_ascii "packet
+    asx { @calculatedFrom(
+""""  ) @tag( 255 )repeat
+// packet A { u8 x, }
+// trailing space 
+int16 u8x
+,
+@tag(
+    //
+    007 )
+    @tag( 0
+    /// triple
+    ) @tag( 1| ) u
+    @lengthOf( T ),
+// `tick` ""quote"" 'q'
+//x
+} // " ++ [128512]%N ++ runes_of_ascii " emoji")).
+Eval vm_compute in ("<<<M458>>>" ++ check (runes_of_ascii "packet
+    asx { @calculatedFrom(
+""""  ) @tag( 255 )repeat
+// packet A { u8 x, }
+// trailing space 
+int16 u8x
+,
+@tag(
+    //
+    ) 007
+    @tag( 0
+    /// triple
+    ) @tag( 1) u
+    @lengthOf( T ),
+// `tick` ""quote"" 'q'
+//x
+} // " ++ [128512]%N ++ runes_of_ascii " emoji")).
+Eval vm_compute in ("<<<M506>>>" ++ check (runes_of_ascii "packet
+    asx { @calculatedFrom(
+""""  ) @tag( 255 )repeat
+// packet A { u8 x, }
+// trailing space 
+int16 u8x
+,
+@tag(
+    //
+    007 )
+    @tag( 0
+    /// triple
+    ) @tag( 1) u
+    @lengthOf(  ),
+// `tick` ""quote"" 'q'
+//x
+} // " ++ [128512]%N ++ runes_of_ascii " emoji")).
+Eval vm_compute in ("<<<M1400>>>" ++ check (runes_of_ascii "packet Sub {
+    u8 a,
+    @calculatedFrom(""CRC16"") i64 SubSum,
+}
+root packet Frame {
+    u16 MsgType,
+    u16 BodyLen @lengthOf(Body),
+    Sub Body,
+    string note,
+    @calculatedFrom(""CRC16"") i64 Checksum,
+    u8 tail,
+}
+")).
+Eval vm_compute in ("<<<M1758>>>" ++ check (runes_of_ascii "packet roots {
+    @rightPad('\x00')
+    @lengthOf(calculatedFrom)
+    asx zchar,
+    char[255] charz `" ++ [233]%N ++ runes_of_ascii "`,
+    @tag(1)
+    repeat MetaDataX,
+    repeat zchar[0] BodyLength `a\`,
+}
+
+MetaData string_ {
+}")).
+Eval vm_compute in ("<<<M337>>>" ++ check (runes_of_ascii "
+MetaData x_y_z	{ f32a tag, crc
+    chars	`doc`, calculatedFrom Packet `crlf
+line` , repeatCount
+int ,string
+    matchKey , charz trueish `" ++ [28040; 24687; 31867; 22411]%N ++ runes_of_ascii "`  , }packet Pad // trailing space 
+{
+}")).
+Eval vm_compute in ("<<<M1304>>>" ++ check (runes_of_ascii "packet A {
+    u8 a,
+}
+packet B {
+    u16 b,
+}
+root packet P {
+    u8 K1,
+    u8 K2,
+    match K1 as M1 {
+        1 : A,
+    },
+    match K2 as M2 {
+        1 : B,
+    },
+}
+")).
+Eval vm_compute in ("<<<M699>>>" ++ check (runes_of_ascii "MetaData u
+    { } MetaData o
+{ float uint8x
+`100% of %d` ,repeatCount u8x, string_ leftPad
+, i32
+    Foo , int64 x `two '1'words` , calculatedFrom
+stringy `a\` ,
+}
+")).
+Eval vm_compute in ("<<<M697>>>" ++ check (runes_of_ascii "MetaData u
+    { } MetaData o
+{ float uin\t8x
+`100% of %d` ,repeatCount u8x, string_ leftPad
+, i32
+    Foo , int64 x `two words` , calculatedFrom
+stringy `a\` ,
+}
+")).
+Eval vm_compute in ("<<<M644>>>" ++ check (runes_of_ascii "MetaData u
+    { } MetaData o
+{ float uint8x
+`100% of %d` ,repeatCount u8x, string_ leftPad
+, i32
+    Foo } int64 x `two words` , calculatedFrom
+stringy `a\` ,
+}
+")).
+Eval vm_compute in ("<<<M1725>>>" ++ check (runes_of_ascii "MetaData float {
+}
+
+packet x {
+    // 50% %s
+    // a // b
+    float @calculatedFrom(""\" ++ [233]%N ++ runes_of_ascii """),
+    uint32 body,
 }
 
 options {
-    As = ""\" ++ [233]%N ++ runes_of_ascii """;
-    pack = ' ';
-    int = '\x00';
-    options1 = ""`tick`"";
-}")).
-Eval vm_compute in ("<<<M705>>>" ++ check (runes_of_ascii "// @lengthOf(
-packet i8i8 { u128 o , }
-options { MetaDataX = true;
-    BodyLength =""packet"" x_y_z= 007
-crc //x
-= = ""abc"" ;
-    msg_type =
-i16 }")).
-Eval vm_compute in ("<<<M722>>>" ++ check (runes_of_ascii "// @lengthOf(
-packet i8i8 { u128 o , }
-options { MetaDataX = true;
-    BodyLength =x_y_z ""packet""= 007
-crc //x
-= ""abc"" ;
-    msg_type =
-i16 }")).
-Eval vm_compute in ("<<<M1792>>>" ++ check (runes_of_ascii "
-MetaData leftPad
-
-{ 
-    // c
-
-chars MetaDataX
-, 
-}	packet repeatCount 
-{ char[ 255	]  uint8x	`" ++ [233]%N ++ runes_of_ascii "`,
-
-    } MetaData
-pack{  As
-Foo, 
+    repeatCount = float32
+}// @lengthOf(")).
+Eval vm_compute in ("<<<M547>>>" ++ check (runes_of_ascii " u
+    { } MetaData o
+{ float uint8x
+`100% of %d` ,repeatCount u8x, string_ leftPad
+, i32
+    Foo , int64 x `two words` , calculatedFrom
+stringy `a\` ,
 }
 ")).
-Eval vm_compute in ("<<<M1433>>>" ++ check (runes_of_ascii "packet stringy {
-}
-
-MetaData u8x {
-    zchar[65535] Pad,
-    stringy string_ `u8 x,`,
-    u8 lengthOf `
-    `,
-    char[255] pack,
-}")).
-Eval vm_compute in ("<<<M1941>>>" ++ check (runes_of_ascii "MetaData uint8x {
-    char[007] leftPad,
-    Pad T,
-    u64 BodyLength,
-    char[] int,
-    float Z9_,
-    float32 metadata,
-}")).
-Eval vm_compute in ("<<<M1141>>>" ++ check (runes_of_ascii "// c
-MetaData leftPad { chars MetaDataX , } packet repeatCount { char[ 255 ] uint8x `" ++ [233]%N ++ runes_of_ascii "` , } MetaData pack { As Foo , }")).
-Eval vm_compute in ("<<<M1174>>>" ++ check (runes_of_ascii "MetaData leftPad { chars MetaDataX , } packet repeatCount { char[ 255 ] uint8x `" ++ [233]%N ++ runes_of_ascii "` ,
-// c
-} MetaData pack { As Foo , }")).
-Eval vm_compute in ("<<<M961>>>" ++ check (runes_of_ascii "packet A {
-    u16 len @lengthOf(body) `tab
-	x`,
-    u32 crc @calculatedFrom(""CRC32"") `tab
-	x`,
-    string body,
-}")).
-Eval vm_compute in ("<<<M962>>>" ++ check (runes_of_ascii "packet A {
-    Inner {
-        u8 x `tab
-	x`,
-        Deep {
-            u8 y `tab
-	x`,
-        },
-    },
-}")).
-Eval vm_compute in ("<<<M867>>>" ++ check (runes_of_ascii "packet A {
-  match k as n {
-    [""a"", ""bb"", ""c c"", ""d"", ""e"", ""f"", ""g"", ""h"", ""i""] : B,
-    2 : C
-  },
-}")).
-Eval vm_compute in ("<<<M875>>>" ++ check (runes_of_ascii "packet A {
-  match k as n {
-    [""a"", ""bb"", 007, ""d"", ""e"", 66, ""g"", ""h"", 9] : B,
-    2 : C
-  },
-}")).
-Eval vm_compute in ("<<<M119>>>" ++ check (runes_of_ascii "packet u{ @tag(10 // a // b
-) tag  @lengthOf( A
-// " ++ [128512]%N ++ runes_of_ascii " emoji
-// a // b
-) , repeat options1 ,  }")).
-Eval vm_compute in ("<<<M613>>>" ++ check (runes_of_ascii "
-packet
-    asx {match u128 as lengthOf
-{
-//	t
-// `tick` ""quote"" 'q'
-255 : x ,
-    } } ,	}")).
-Eval vm_compute in ("<<<M574>>>" ++ check (runes_of_ascii "
-packet
-    asx {match as u128 lengthOf
-{
-//	t
-// `tick` ""quote"" 'q'
-255 : x ,
-    } ,	}")).
-Eval vm_compute in ("<<<M577>>>" ++ check (runes_of_ascii "
-packet
-    asx {match u128  lengthOf
-{
-//	t
-// `tick` ""quote"" 'q'
-255 : x ,
-    } ,	}")).
-Eval vm_compute in ("<<<M567>>>" ++ check (runes_of_ascii "
-packet
-    asx { u128 as lengthOf
-{
-//	t
-// `tick` ""quote"" 'q'
-255 : x ,
-    } ,	}")).
-Eval vm_compute in ("<<<M1894>>>" ++ check (runes_of_ascii "packet A {
+Eval vm_compute in ("<<<M480>>>" ++ check (runes_of_ascii "packet
+    asx { @calculatedFrom(
+""""  ) @tag( 255 )repeat
+// packet A { u8 x, }
+// trailing space 
+int16 u8x
+,
+@tag(
+    //
+    007 )
+    @tag( 0")).
+Eval vm_compute in ("<<<M1969>>>" ++ check (runes_of_ascii "packet A {
     match k as n {
-        [1, ""bb"", 007] : B,
+        [
+            1, 22, ""c c"", 4, 5,
+            ""f"", 7, 8, ""i""
+        ] : B,
         2 : C,
     },
 }")).
-Eval vm_compute in ("<<<M820>>>" ++ check (runes_of_ascii "packet A {
-  match k as n {
-    [""a"", 22, ""c c"", 4, ""e""] : B
-    2 : C
-  },
+Eval vm_compute in ("<<<M1649>>>" ++ check (runes_of_ascii "packet A {
+    match k as n {
+        [
+            ""a"", ""bb"", 007, ""d"", ""e"",
+            66
+        ] : B,
+        2 : C,
+    },
 }")).
-Eval vm_compute in ("<<<M1754>>>" ++ check (runes_of_ascii "
+Eval vm_compute in ("<<<M1269>>>" ++ check (runes_of_ascii "packet B {
+    u8 a,
+}
+root packet P {
+    u8 K,
+    u8 L @lengthOf(Body),
+    match K as Body {
+        1 : B,
+    },
+}
+")).
+Eval vm_compute in ("<<<M50>>>" ++ check (runes_of_ascii "
 root
-
-packet string_  {  char[]
-
-matchKey
-    ,
-} packet	x
-
-    {  }
-")).
-Eval vm_compute in ("<<<M864>>>" ++ check (runes_of_ascii "packet A { Inner { match k as n { [1,22,007,4,5,66,7,8] : B, }, }, }")).
-Eval vm_compute in ("<<<M782>>>" ++ check (runes_of_ascii "packet A {
+    packet //
+u {float32 BodyLength ,
+} packet u {  char[ 1]  a1
+@calculatedFrom(
+""a\""b""	) ,
+} /// triple")).
+Eval vm_compute in ("<<<M1233>>>" ++ check (runes_of_ascii "options { } options { MetaDataX = char ; } MetaData Pad { i8 metadata , // c
+string stringy , int8 As `{ , }` , }")).
+Eval vm_compute in ("<<<M283>>>" ++ check (runes_of_ascii "
+packet trueish
+    {} packet Z9_
+{  stringy
+    calculatedFrom	`say ""hi""` ,
+    u64
+Z9_ , } packet f32a { }")).
+Eval vm_compute in ("<<<M896>>>" ++ check (runes_of_ascii "packet A {
   match k as n {
-    [1, ""bb""] : B,
+    [""a"", 22, ""c c"", 4, ""e"", 66, ""g"", 8, ""i"", 10, ""k""] : B
     2 : C
   },
 }")).
-Eval vm_compute in ("<<<M775>>>" ++ check (runes_of_ascii "packet A {
-  match k as n {
-    [""a""] : B,
-    2 : C
-  },
+Eval vm_compute in ("<<<M1546>>>" ++ check (runes_of_ascii "packet A {
+    u32 crc @calculatedFrom(""\
+        ""),
+    @calculatedFrom(""\
+        "")
+    u8 y,
 }")).
-Eval vm_compute in ("<<<M1556>>>" ++ check (runes_of_ascii "
-MetaData
-M {
-    u8 x
-    `a
-b`
+Eval vm_compute in ("<<<M1794>>>" ++ check (runes_of_ascii "packet
+    A
+{
+u32  crc
+
+    @calculatedFrom( ""\
+""
+	)	, @calculatedFrom(  ""\
+"" 
+) u8 
+y , } ")).
+Eval vm_compute in ("<<<M384>>>" ++ check (runes_of_ascii "root packet SimpleMessage {
+    uint16 MsgType `" ++ [28040; 24687; 31867; 22411]%N ++ runes_of_ascii "`,
+    string JsonBody `Json" ++ [23383; 31526; 20018; 28040; 24687; 20307]%N ++ runes_of_ascii "`,
+}")).
+Eval vm_compute in ("<<<M1318>>>" ++ check (runes_of_ascii "
+
+  packet 
+orderItem{
+u8 
+a
 ,
-T t`a
-b` ,
-	}
+    }root packet
+newOrder
+
+    {orderItem	,u8
+	x, }
+")).
+Eval vm_compute in ("<<<M813>>>" ++ check (runes_of_ascii "packet A {
+  match k as n {
+    [""a"", ""bb"", ""c c"", ""d"", ""e""] : B,
+    2 : C
+  },
+}")).
+Eval vm_compute in ("<<<M86>>>" ++ check (runes_of_ascii "MetaData	f32a // @lengthOf(
+{ // `tick` ""quote"" 'q'
+charz msg_type , } // " ++ [27880; 37322]%N)).
+Eval vm_compute in ("<<<M819>>>" ++ check (runes_of_ascii "packet A {
+  match k as n {
+    [1, 22, ""c c"", 4, 5] : B,
+    2 : C
+  },
+}")).
+Eval vm_compute in ("<<<M791>>>" ++ check (runes_of_ascii "packet A {
+  match k as n {
+    [""a"", 22, ""c c""] : B,
+    2 : C
+  },
+}")).
+Eval vm_compute in ("<<<M1117>>>" ++ check (runes_of_ascii "packet A {
+    match k as n {
+        1 : B,
+        // c
+    },
+}")).
+Eval vm_compute in ("<<<M1256>>>" ++ check (runes_of_ascii "
+
+  root packet
+P
+
+    {
+repeat
+
+char 
+cs , 
+u8
+	x  ,
+
+}
 
 ")).
-Eval vm_compute in ("<<<M1214>>>" ++ check (runes_of_ascii "packet body { i32 f32a `{ , }` , }
+Eval vm_compute in ("<<<M1116>>>" ++ check (runes_of_ascii "packet A {
+    match k as n {
+        1 : B,// c
+    },
+}")).
+Eval vm_compute in ("<<<M1104>>>" ++ check (runes_of_ascii "packet A { B { // a
+ u8 x, // b
+ } // c
+ , // d
+ }")).
+Eval vm_compute in ("<<<M1596>>>" ++ check (runes_of_ascii "options {
+    // c
+    A = ""// no comment""
+}")).
+Eval vm_compute in ("<<<M1734>>>" ++ check (runes_of_ascii "options {
+    A = ""// no comment""
+}// c")).
+Eval vm_compute in ("<<<M1184>>>" ++ check (runes_of_ascii "options
 // c
-options { }")).
-Eval vm_compute in ("<<<M284>>>" ++ check (runes_of_ascii "
-options{ trueish=
-'0' //	t
-;a1 = u64
-; }")).
-Eval vm_compute in ("<<<M1066>>>" ++ check (runes_of_ascii "packet A {
-    u8 x,    // c    u8 y,
+{ A = ""// no comment"" }")).
+Eval vm_compute in ("<<<M1524>>>" ++ check (runes_of_ascii "packet A {
+    u8 x `d 	`,// c 	
 }")).
-Eval vm_compute in ("<<<M1626>>>" ++ check (runes_of_ascii "packet A {
-    u8 x `a
-        b`,
-}")).
-Eval vm_compute in ("<<<M958>>>" ++ check (runes_of_ascii "root packet A {
+Eval vm_compute in ("<<<M932>>>" ++ check (runes_of_ascii "root packet A {
     u8 x `
-x`,
+`,
 }")).
-Eval vm_compute in ("<<<M1003>>>" ++ check (runes_of_ascii "packet A {
- u8 x `d" ++ [8192]%N ++ runes_of_ascii "`, // c" ++ [8192]%N ++ runes_of_ascii "
-}")).
-Eval vm_compute in ("<<<M953>>>" ++ check (runes_of_ascii "packet A {
-    u8 x `
-x`,
-}")).
-Eval vm_compute in ("<<<M268>>>" ++ check (runes_of_ascii " // packet A { u8 x, }")).
-Eval vm_compute in ("<<<M20>>>" ++ check (runes_of_ascii "packet MetaDataX { }")).
-Eval vm_compute in ("<<<M977>>>" ++ check (runes_of_ascii "// c 
+Eval vm_compute in ("<<<M1748>>>" ++ check (runes_of_ascii "
+
+  packet A{
+	} 
+    // c 	
+")).
+Eval vm_compute in ("<<<M96>>>" ++ check (runes_of_ascii "// c
+MetaData o
+    { }
+")).
+Eval vm_compute in ("<<<M1131>>>" ++ check (runes_of_ascii "MetaData tag { }
+// c
+")).
+Eval vm_compute in ("<<<M1006>>>" ++ check (runes_of_ascii "// c" ++ [160]%N ++ runes_of_ascii "
 packet A {
 }")).
-Eval vm_compute in ("<<<M1059>>>" ++ check (runes_of_ascii "packet A {
-}// c x")).
-Eval vm_compute in ("<<<M1228>>>" ++ check (runes_of_ascii "packet x // c
-{ }")).
-Eval vm_compute in ("<<<M376>>>" ++ check (runes_of_ascii "
-// " ++ [128512]%N ++ runes_of_ascii " emoji
+Eval vm_compute in ("<<<M1173>>>" ++ check (runes_of_ascii "packet x { } // c
 ")).
-Eval vm_compute in ("<<<M1020>>>" ++ check (runes_of_ascii "// c" ++ [8239]%N)).
+Eval vm_compute in ("<<<M154>>>" ++ check (runes_of_ascii "packet  i64_ { }")).
+Eval vm_compute in ("<<<M1504>>>" ++ check (runes_of_ascii "// a
+// b")).
+Eval vm_compute in ("<<<M731>>>" ++ check (runes_of_ascii "
+
+
+")).
